@@ -71,7 +71,7 @@ class C07(CheckBase):
     pid = "C07"
     level = "exploration"
     quick_cases = 480
-    thorough_cases = 7200
+    thorough_cases = 4800
 
     def cases(self, rng: random.Random, tier: str, idx: int) -> Iterable[dict]:
         r = idx % 6
